@@ -65,7 +65,7 @@ PROPERTIES = {
             "quick": [H("HarnessC04a", b(K=4, NOPS=3), sample_every=200), H("HarnessC04a", b(K=3, NOPS=3, BF=3))] + [H("HarnessC04b", b(N=5, K=1, NOPS=2, HREQ=2, LPAT=p)) for p in (18, 6, 19, 63)] + [H("HarnessC04a", {**b(K=k, NOPS=3), "SEQ.h": q}, sample_every=200) for k, q in ((5, 10),)] + [H("HarnessC04b", {**b(N=5, K=2, NOPS=3, HREQ=2, LPAT=p), "SEQ.h": q}, sample_every=20) for p in (18, 6, 19, 63) for q in (20, 21)] + [H("HarnessC04b", b(N=17, K=1, NOPS=2, Lmax=4, LRULER=1, CONCRETEKEYS=1), sample_every=10, max_steps=30000000)] +
                      # all seven operation kinds (incl. clone, go back to the first persisted version, restart with an empty cache) through a cache
                      [H("HarnessC04a", b(K=4, NOPS=7, CACHE=1), sample_every=200)],
-            "thorough": [H("HarnessC04b", b(N=5, K=1, NOPS=2, HREQ=2), sample_every=500), H("HarnessC04a", b(K=4, NOPS=3), sample_every=200), H("HarnessC04a", b(K=3, NOPS=4)), H("HarnessC04a", b(K=3, NOPS=3, BF=3)), H("HarnessC04a", b(K=5, NOPS=7, CACHE=1), sample_every=5000)],
+            "thorough": [H("HarnessC04b", b(N=5, K=1, NOPS=2, HREQ=2), sample_every=500), H("HarnessC04a", b(K=4, NOPS=3), sample_every=200), H("HarnessC04a", b(K=3, NOPS=4)), H("HarnessC04a", b(K=3, NOPS=3, BF=3))],
         },
         "must_reach": ["C04.height-rule", "C04.same-link"],
         "bounds_statement": "histories of <= K operations from the empty tree (insert, delete, persist+reload, clone, persist, go back to the first persisted version, restart with an empty cache; the last four only where NOPS says so); final persisted root compared with (a) the height rule and (b) the root of a fresh tree given the same entries in ascending order",
@@ -77,7 +77,7 @@ PROPERTIES = {
                       # values whose encoding may be empty (raw-bytes codec), decoded from the store
                       H("HarnessC05e", b(N=3, CACHE=0)), H("HarnessC05e", b(N=3, CACHE=1, FRESHCACHE=1)),
                       H("HarnessC05a", b(N0=3, K=0, K2=1, FMT=0, CACHE=0), sample_every=50), H("HarnessC05a", b(N0=3, K=0, K2=1, FMT=0, CACHE=1), sample_every=50)],
-            "thorough": [H("HarnessC05a", b(K=3, K2=1, FMT=f, CACHE=c), sample_every=200) for f in (0, 1, 2) for c in (0, 1)],
+            "thorough": [H("HarnessC05a", b(K=3, K2=1, FMT=f, CACHE=0), sample_every=200) for f in (0, 1, 2)] + [H("HarnessC05a", b(K=3, K2=1, FMT=0, CACHE=1), sample_every=200), H("HarnessC05e", b(N=4, CACHE=0))],
         },
         "must_reach": ["C05.reloaded.iter-seq", "C05.size", "C05.modified-reloaded-tree-persists-canonically", "C05.persist-and-reload-do-not-panic"],
         "bounds_statement": "trees from <= K inserts/deletes, persisted and re-loaded, <= K2 further operations, persisted and re-loaded again; both node formats, both v1marshaler decode paths, cache on/off; byte-slice values of length 0 or 1 under a raw-bytes codec (empty encodings)",
@@ -89,7 +89,7 @@ PROPERTIES = {
             "quick": [H("HarnessC06a", b(N=2, K=2, MODE=m)) for m in (0, 1, 2, 3, 4, 5, 6)] + [H("HarnessC06a", b(N=2, K=2, MODE=m, KEEP=1)) for m in (1, 3)] +
                      # pointer-typed values: equal under reflect.DeepEqual, never identical across two decodes
                      [H("HarnessC06p", b(N=3, MODE=m)) for m in (0, 1)] + [H("HarnessC06a", b(N=3, K=1, MODE=7))] + [H("HarnessC06a", b(N=17, K=1, MODE=1, Lmax=4, LRULER=1, CONCRETEKEYS=1), sample_every=10, max_steps=30000000)],
-            "thorough": [H("HarnessC06a", b(N=3, K=2, MODE=m), sample_every=300) for m in (0, 1, 2, 3)] + [H("HarnessC06a", b(N=3, K=3, MODE=m), sample_every=300) for m in (2, 3, 4, 5, 6)] + [H("HarnessC06a", b(N=3, K=2, MODE=7), sample_every=300), H("HarnessC06a", b(N=4, K=1, MODE=7), sample_every=300)] +
+            "thorough": [H("HarnessC06a", b(N=3, K=2, MODE=m), sample_every=300) for m in (0, 1, 2, 3)] + [H("HarnessC06a", b(N=3, K=3, MODE=m), sample_every=300) for m in (4, 5, 6)] + [H("HarnessC06a", b(N=3, K=2, MODE=7), sample_every=300), H("HarnessC06a", b(N=4, K=1, MODE=7), sample_every=300)] +
                         [H("HarnessC06a", b(N=4, K=1, MODE=m), sample_every=300) for m in (0, 1)],
         },
         "must_reach": ["C06.iter.each-correct", "C06.iter.complete", "C06.iter.ascending-once", "C06.cursor-same-entries", "C06.stop-count"],
@@ -300,8 +300,8 @@ PROPERTIES = {
                      [H("HarnessC11a", b(N=3, OPS=1, MODE=0, KINDS=15, HREQ=-1, FMT=f, FRESHCACHE=1), race=True, policy="rr", no_native=True, sample_every=200) for f in (0, 1, 2)] +
                      # two second-generation clones (clones of a clone of a loaded tree with one un-flushed modification)
                      [H("HarnessC11a", b(N=2, OPS=1, MODE=3, KINDS=6, HREQ=-1), race=True, policy="rr", no_native=True, sample_every=500)],
-            "thorough": [H("HarnessC11a", b(N=5, OPS=1, MODE=m, KINDS=12, HREQ=1, LPAT=28, MID=1), race=True, policy="rr", no_native=True, sample_every=1000) for m in (0, 1)] + [H("HarnessC11a", b(N=5, OPS=1, MODE=m, KINDS=14, HREQ=2, LPAT=p), race=True, policy=pol, no_native=True, sample_every=1000) for m in (0, 1) for p in (63, 57, 75) for pol in ("rr", "first", "last")] +
-                        [H("HarnessC11a", b(N=3, OPS=1, MODE=m, KINDS=15, HREQ=-1), race=True, policy=pol, no_native=True, sample_every=1000) for m in (0, 1, 2) for pol in ("rr", "last")] +
+            "thorough": [H("HarnessC11a", b(N=5, OPS=1, MODE=m, KINDS=12, HREQ=1, LPAT=28, MID=1), race=True, policy="rr", no_native=True, sample_every=1000) for m in (0, 1)] + [H("HarnessC11a", b(N=5, OPS=1, MODE=m, KINDS=14, HREQ=2, LPAT=p), race=True, policy=pol, no_native=True, sample_every=1000) for m in (0, 1) for p in (63, 57) for pol in ("rr", "last")] +
+                        [H("HarnessC11a", b(N=3, OPS=1, MODE=m, KINDS=15, HREQ=-1), race=True, policy="last", no_native=True, sample_every=1000) for m in (0, 1, 2)] +
                         [H("HarnessC11a", b(N=2, OPS=2, MODE=0, KINDS=10, HREQ=-1), race=True, policy="rr", no_native=True, sample_every=1000)] +
                         [H("HarnessC11a", b(N=3, OPS=1, MODE=0, KINDS=14, HREQ=-1, LPAT=9), race=True, sched=True, preempt=1, no_native=True, sample_every=5000)],
         },
